@@ -26,7 +26,7 @@ from harness.props.c05 import ref_delete
 MANIFEST = dict(
     category="proof",
     technique="Lean 4 theorems over a hand-written model of the xpath engine + differential correspondence with the implementation",
-    text="Lean: the model of _find/_add/__setitem__ follows the code (with the fix patches C03-a, C03-b, C03-c, C04-a applied) branch "
+    text="Lean: the model of _find/_add/__setitem__ follows the code (with the fix patches C03-a, C03-b, C03-c, C04-a, C03-e applied) branch "
          "by branch, including the conversion of a single value by name[new()] and the take-back of a refused creation. Proved, "
          "unbounded in tree size, depth of the existing node q and length of the created chain, for canonical '//'-rooted paths "
          "with plain names: (1) the miss: after tokens that spell an existing dict node, a plain key or name[idx] token whose "
@@ -69,6 +69,16 @@ MANIFEST = dict(
          "history are those without later bare index steps) the final tree equals the reference fold, nothing raises and "
          "every pop returned the node it removed (C03_history, by induction over the history; the root stays a dict of the "
          "same class: C03_history_root; one call: C03_history_step). "
+         "(6) an index step on a single value (hidden list, fix C03-e; the model follows __setitem__, which resolves the "
+         "place of the value itself when _find reports the temporary tuple): for the single (non-list) value old of a key "
+         "name below any existing dict node and ANY spelling e of the index (IdxSp: n, -n, last(), last()-k, a+b), "
+         "C03_index_on_single_value proves the three cases - e = 0 / -1: d['..name[e]'] = v replaces old (setAt); e = 1 = len: "
+         "the slot becomes [old, chain tail v] (name[1] -> [old, v], name[1]/y -> [old, {y: v}]: name[1] IS name[new()], "
+         "C03_index_one_is_new); anything else: SyntaxError and the tree is the tree before the call; what _find itself "
+         "reports is unchanged (C03_find_index_on_single_value), so every lookup returns what it returned. The witnesses "
+         "of the finding are positive instances (C03_hidden_one_ok, C03_hidden_one_tail_ok, C03_hidden_zero_two) or proved "
+         "refusals (C03_hidden_one_in_list_refused: [1] on a single value that is an element of a list, where no key could "
+         "hold the new list; the root; a[0][1], after which that text would not lead to the new element). "
          "Stated, not proved: the unrestricted read-back C03_read_back_stmt (any path text that happens to succeed, names "
          "containing 'new()'); read-back for paths with later bare index steps is checked on instances and by the "
          "evaluator. Differential part: the model is compared with the real code on creation paths of every shape, inside "
@@ -79,7 +89,10 @@ MANIFEST = dict(
     note="Creation grammar: first step name | n[new()] | n[0] | n[len] | [new()] | [len]; later steps name | n[new()] | n[0] | "
          "[new()] | [0] (a bare index only directly after an element-creating step). Relative spellings of the creation "
          "paths and histories whose operations use non-canonical spellings are differential only (single deletes/pops in "
-         "every spelling: C05_delete_spellings, C05_pop_spellings). Hist.ValidOp still carries the conjunct about plain "
+         "every spelling: C05_delete_spellings, C05_pop_spellings). Index steps on single values: proved for the value of a "
+         "key (any spelling of the index, any dict node, fresh names after name[1]); a single value that is an element of a "
+         "list, indexes written as steps of their own (a/[1]), later creation steps after name[1] and hidden indexes in the "
+         "middle of a path are instances + evaluator hidden_index + B. Hist.ValidOp still carries the conjunct about plain "
          "lists that finding C03-c needed; it is no longer used by the proof.",
     design_ref="5/C03",
 )
